@@ -1,7 +1,7 @@
 #!/usr/bin/env python3
 """Both-ways self-test of the checkers (not part of any property command).
 
-    python3 selftest/run.py [-j N] [--only SUBSTR] [--seeded]
+    python3 selftest/run.py [-j N] [--only SUBSTR] [--seeded] [--report FILE]
 
 Every mutant in selftest/mutants.py is applied (exact text replacement, must
 match once) to a scratch copy of /repo's sources under $TMPDIR; the named
@@ -91,8 +91,14 @@ def main():
     if only:
         ms = [m for m in ms if only in m["id"]]
     bad = 0
+    report = {}
     with concurrent.futures.ThreadPoolExecutor(j) as ex:
         for m, status, out in ex.map(run_one, ms):
+            keys = []
+            for l in out.splitlines():
+                if l.startswith("  rule=") and " key=" in l:
+                    keys.append(l.split(" key=", 1)[1].split(" at ")[0])
+            report[m["id"]] = {"status": status, "checks": m["prop"], "keys": sorted(set(keys))}
             print("%-12s %-40s %s" % (status, m["id"], m.get("expect", "twin" if m.get("twin") else "")))
             if status != "OK" or verbose:
                 if status != "OK":
@@ -102,6 +108,10 @@ def main():
                         print("      " + l[:220])
                 if status == "BROKEN":
                     print("      " + out[:300])
+    if "--report" in args:
+        import json
+        with open(args[args.index("--report") + 1], "w") as f:
+            json.dump(report, f, indent=1, sort_keys=True)
     print("%d mutants/twins, %d not as expected" % (len(ms), bad))
     return 1 if bad else 0
 
